@@ -194,6 +194,38 @@ Definition server_accepts (r : sresult) (t : N) : bool :=
 Definition survives (g : result) (f : fate) : bool :=
   match f with Done t => dleb (Fin t) (g_ret g) | _ => false end.
 
+(* ---- the registry of running servers (proxy/serve.go:29-34, serve():208-210) ----
+   serve() stores every server in the package-level map [servers] under ln.Addr().String(), the
+   configured listen address (ip, port); proxy.Shutdown snapshots the map and shuts down its
+   values.  A Go map keeps one value per key: a server started earlier under a key that a later
+   start uses again is overwritten, and Shutdown never reaches it: its listener stays open and
+   its work is left alone.  [kf] is the key function: the identity for the code as it is. *)
+Definition addr := (N * N)%type.   (* IPv4 address as a number, port *)
+Definition addr_eqb (a b : addr) : bool := (fst a =? fst b) && (snd a =? snd b).
+Definition key_configured (a : addr) : addr := a.          (* the code *)
+Definition key_port_only (a : addr) : addr := (0, snd a).  (* NOT the code: ":" + port *)
+
+Definition overwritten (kf : addr -> addr) (a : addr) (later : list (addr * server)) : bool :=
+  existsb (fun q => addr_eqb (kf (fst q)) (kf a)) later.
+
+(* per started server, in start order: None = no longer in the registry, not shut down *)
+Fixpoint run_started (gp : list step) (kf : addr -> addr) (wait : N) (started : list (addr * server))
+  : list (option sresult) :=
+  match started with
+  | [] => []
+  | (a, s) :: later =>
+      (if overwritten kf a later then None else Some (run_server gp wait s)) :: run_started gp kf wait later
+  end.
+
+Definition started_accepts (r : option sresult) (t : N) : bool :=
+  match r with None => true | Some r => server_accepts r t end.
+
+Definition started_ret (rs : list (option sresult)) : dur :=
+  dmax_list (map (fun r => match r with Some r => s_ret r | None => Fin 0 end) rs).
+
+(* a server that Shutdown does not reach: nothing is closed, nothing is cut *)
+Definition untouched (d : dur) : fate := match d with Fin n => Done n | Inf => Never end.
+
 (* ---- a sequential variant, for comparison only (the mutant "wait per server in turn") ---- *)
 Fixpoint dsum (l : list dur) : dur :=
   match l with
